@@ -1092,3 +1092,717 @@ Print Assumptions C17_tie_extract_selected_fuelled_at.
 Print Assumptions C17_tie_extract_linear_reused_id_agrees.
 Print Assumptions C17_tie_extract_linear_reused_id_old_model_refuted.
 Print Assumptions C17_tie_extract_selected_panic_unwinds.
+
+(* ====================================================================================================
+   work package cmdsT2 — Tie A, level 1, for the mlar commands other than extract, keygen, keyderive: open_mla_file, add_file_to_tar,
+   to_tar, cat, list, convert, repair, create (with add_file_or_dir / add_dir / add_from_stdin), config_from_matches and
+   writer_from_matches of mlar/src/main.rs as TRANSLATED by tools/src2v3_cmds.py (gen/Src3m.v), with the library calls instantiated
+   by the model's functions (theories/SrcTie3Cmds2Inst.v, SrcTie3Cmds2Open.v; the writer: the model's two-phase writer of
+   SrcTie3Cmds2Conv.v), ARE the command models of Cli.v / CliRepair.v that the theorems above are about; the C17 theorems are then
+   carried to the translated code (…_src).  Run from the empty world (SrcTie3Cmds2Inst.world0: nothing created, nothing printed)
+   and read as a cres by SrcTie3Cmds2Inst.cres_of.  Free in every statement: the -k / -p paths, the file system function that
+   opens them and the key parsers (cli_keys = what readerconfig_from_matches makes of them; a key file that fails is a panic).
+   MODEL IMPRECISION found by the tie (to-tar only): Cli.to_tar_loop continues when get_file or io::copy PANICS and Cli.cmd_to_tar
+   reports exit status 0, the code unwinds (exit status 101, trailer written by Drop): C17_tie_to_tar_src holds on to_tar_domain
+   (no panic; true of every archive made by create), C17_tie_to_tar_without_domain_refuted is a concrete reader outside it.
+   `info`: translated since the extension of the translator at the end of this work package (last block below). *)
+From MLAGen Require Src3m.
+From MLA Require SrcTie3Cmds SrcTie3Cmds2Open SrcTie3Cmds2Inst SrcTie3Cmds2Tar SrcTie3Cmds2Cat SrcTie3Cmds2Cfg SrcTie3Cmds2Conv SrcTie3Cmds2Create SrcTie3Cmds2Made.
+
+(* open_mla_file (translated) = Cli.cli_open behind the loading of the -k files; the world is not touched *)
+Theorem C17_tie_open_mla_file_src :
+  forall (CHUNK TAG BLOCK LIMIT : N) (dh : bytes -> bytes -> bytes) (kdf : bytes -> bytes)
+      (wdec wtag : bytes -> bytes -> bytes) (ksf : bytes -> bytes -> N -> N -> N)
+      (tagf : bytes -> bytes -> N -> bytes -> bytes) (dec : bytes -> bytes) (a : bytes) (KPath : Type)
+      (fs_open_key : KPath -> Src3m.World -> res bytes) (parse_privkey : bytes -> res bytes) 
+      (site : N -> N) (arg_keys : option (list KPath)) (w : Src3m.World),
+    arg_keys <> Some [] ->
+    SrcTie3Cmds2Open.open_t CHUNK TAG BLOCK LIMIT dh kdf wdec wtag ksf tagf dec a KPath fs_open_key parse_privkey site
+      arg_keys w =
+    (w,
+     match SrcTie3Cmds2Open.cli_keys KPath fs_open_key parse_privkey site arg_keys w with
+     | Ok privs => cli_open CHUNK TAG BLOCK LIMIT dh kdf wdec wtag ksf tagf dec a privs
+     | Err e => Err e
+     | Crash x => Crash x
+     end).
+Proof. exact SrcTie3Cmds2Open.open_mla_file_src. Qed.
+
+(* carried: a failing open (any reason) returns no reader and leaves output file, <output>.pub and stdout exactly as they were *)
+Theorem C17_failed_open_leaves_no_output_src :
+  forall (CHUNK TAG BLOCK LIMIT : N) (dh : bytes -> bytes -> bytes) (kdf : bytes -> bytes)
+      (wdec wtag : bytes -> bytes -> bytes) (ksf : bytes -> bytes -> N -> N -> N)
+      (tagf : bytes -> bytes -> N -> bytes -> bytes) (dec : bytes -> bytes) (a : bytes) (KPath : Type)
+      (fs_open_key : KPath -> Src3m.World -> res bytes) (parse_privkey : bytes -> res bytes) 
+      (site : N -> N) (arg_keys : option (list KPath)) (w : Src3m.World),
+    arg_keys <> Some [] ->
+    (forall privs : list bytes,
+     SrcTie3Cmds2Open.cli_keys KPath fs_open_key parse_privkey site arg_keys w = Ok privs ->
+     open_fails CHUNK TAG BLOCK LIMIT dh kdf wdec wtag ksf tagf dec a privs) ->
+    fst
+      (SrcTie3Cmds2Open.open_t CHUNK TAG BLOCK LIMIT dh kdf wdec wtag ksf tagf dec a KPath fs_open_key parse_privkey
+         site arg_keys w) = w /\
+    (forall x : opened CHUNK TAG BLOCK ksf tagf dec a,
+     snd
+       (SrcTie3Cmds2Open.open_t CHUNK TAG BLOCK LIMIT dh kdf wdec wtag ksf tagf dec a KPath fs_open_key parse_privkey
+          site arg_keys w) <> Ok x).
+Proof. exact SrcTie3Cmds2Open.C17_failed_open_leaves_no_output_src. Qed.
+
+(* add_file_to_tar (translated: header, ./ for absolute names, the DRY RUN, append_data) = Tar.tar_member behind Tar.path_accepted *)
+Theorem C17_tie_add_file_to_tar_src :
+  forall (AF : Type) (af_name : AF -> bytes) (af_sz : AF -> N) (copy : AF -> AF * bytes * res unit)
+      (t : Src3m.TarBuilder) (f : AF) (w : Src3m.World),
+    Src3m.add_file_to_tar AF af_name af_sz copy SrcTie3Cmds.tar_entry_m t f w =
+    (if path_accepted (af_name f)
+     then
+      let
+      '(f1, d, r) := copy f in
+       let
+       '(b, ok) := tar_member (af_name f) (af_sz f) d (is_ok r) in
+        (Src3m.dest_write t b w, t, f1, match r with
+                                        | Crash x => Crash x
+                                        | _ => if ok then Ok tt else Err EIo
+                                        end)
+     else (w, t, f, Err EIo)).
+Proof. exact SrcTie3Cmds2Tar.add_file_to_tar_src. Qed.
+
+(* the loop of to_tar from any reader state: the destination receives exactly Cli.to_tar_loop's bytes, where no get_file / copy panics *)
+Theorem C17_tie_to_tar_loop_sim :
+  forall (FNMAX TS TC TA TE : N) (P : Type) (F : P -> Stream) (zf fuel : nat) (t : Src3m.TarBuilder)
+      (names : list bytes) (p : P) (r : rstate (F p)) (acc : bytes) (w : Src3m.World),
+    SrcTie3Cmds2Tar.to_tar_runs FNMAX TS TC TA TE (F p) zf fuel r names = true ->
+    let g :=
+      Src3m.to_tar_for1 (SrcTie3Cmds2Inst.ARm P F) (SrcTie3Cmds2Inst.AFm P F)
+        (SrcTie3Cmds2Inst.get_file_m FNMAX TS TC TA TE P F) (SrcTie3Cmds2Inst.af_filename_m P F)
+        (SrcTie3Cmds2Inst.af_size_m P F) (SrcTie3Cmds2Inst.af_release_m P F)
+        (SrcTie3Cmds2Inst.io_copy_m FNMAX TS TC TA TE P F zf fuel) SrcTie3Cmds.tar_entry_m
+        (existT (fun p0 : P => rstate (F p0)) p r) t (Src3m.dest_write t acc w) names in
+    fst (fst (fst g)) = Src3m.dest_write t (to_tar_loop FNMAX TS TC TA TE (F p) zf fuel r names acc) w /\
+    snd (fst g) = t /\ snd g = Ok tt.
+Proof. exact SrcTie3Cmds2Tar.to_tar_for1_sim. Qed.
+
+(* what the code does when get_file panics: the loop ends there with the panic (Cli.to_tar_loop goes on) *)
+Theorem C17_tie_to_tar_panic_stops :
+  forall (FNMAX TS TC TA TE : N) (P : Type) (F : P -> Stream) (zf fuel : nat) (t : Src3m.TarBuilder) 
+      (n : bytes) (names : list bytes) (p : P) (r r1 : rstate (F p)) (c : N) (w : Src3m.World),
+    get_file FNMAX TS TC TA TE (F p) r n = (r1, Crash c) ->
+    Src3m.to_tar_for1 (SrcTie3Cmds2Inst.ARm P F) (SrcTie3Cmds2Inst.AFm P F)
+      (SrcTie3Cmds2Inst.get_file_m FNMAX TS TC TA TE P F) (SrcTie3Cmds2Inst.af_filename_m P F)
+      (SrcTie3Cmds2Inst.af_size_m P F) (SrcTie3Cmds2Inst.af_release_m P F)
+      (SrcTie3Cmds2Inst.io_copy_m FNMAX TS TC TA TE P F zf fuel) SrcTie3Cmds.tar_entry_m
+      (existT (fun p0 : P => rstate (F p0)) p r) t w (n :: names) =
+    (w, existT (fun p0 : P => rstate (F p0)) p r1, t, Crash c).
+Proof. exact SrcTie3Cmds2Tar.to_tar_for1_panic_stops. Qed.
+
+(* a concrete reader (its source's seek panics) on which the translated loop ends with the panic while Cli.to_tar_loop continues and Cli.cmd_to_tar reports exit status 0 *)
+Theorem C17_tie_to_tar_without_domain_refuted :
+  exists (r : rstate SrcTie3Cmds2Tar.S_panics) (names : list bytes),
+      let g :=
+        Src3m.to_tar_for1 (SrcTie3Cmds2Inst.ARm unit (fun _ : unit => SrcTie3Cmds2Tar.S_panics))
+          (SrcTie3Cmds2Inst.AFm unit (fun _ : unit => SrcTie3Cmds2Tar.S_panics))
+          (SrcTie3Cmds2Inst.get_file_m 0 0 0 0 0 unit (fun _ : unit => SrcTie3Cmds2Tar.S_panics))
+          (SrcTie3Cmds2Inst.af_filename_m unit (fun _ : unit => SrcTie3Cmds2Tar.S_panics))
+          (SrcTie3Cmds2Inst.af_size_m unit (fun _ : unit => SrcTie3Cmds2Tar.S_panics))
+          (SrcTie3Cmds2Inst.af_release_m unit (fun _ : unit => SrcTie3Cmds2Tar.S_panics))
+          (SrcTie3Cmds2Inst.io_copy_m 0 0 0 0 0 unit (fun _ : unit => SrcTie3Cmds2Tar.S_panics) 0 0)
+          SrcTie3Cmds.tar_entry_m (existT (fun _ : unit => rstate SrcTie3Cmds2Tar.S_panics) tt r)
+          (Src3m.OFile Src3m.PMain) SrcTie3Cmds2Inst.world0 names in
+      snd g = Crash 7 /\
+      to_tar_loop 0 0 0 0 0 SrcTie3Cmds2Tar.S_panics 0 0 r names [] = [] /\
+      SrcTie3Cmds2Tar.to_tar_runs 0 0 0 0 0 SrcTie3Cmds2Tar.S_panics 0 0 r names = false.
+Proof. exact SrcTie3Cmds2Tar.to_tar_without_domain_refuted. Qed.
+
+(* the whole command: to_tar (translated), run from the empty world, = Cli.cmd_to_tar (exit status, output file effect, stdout) on the no-panic domain *)
+Theorem C17_tie_to_tar_src :
+  forall (CHUNK TAG BLOCK LIMIT FNMAX TS TC TA TE : N) (dh : bytes -> bytes -> bytes) (kdf : bytes -> bytes)
+      (wdec wtag : bytes -> bytes -> bytes) (ksf : bytes -> bytes -> N -> N -> N)
+      (tagf : bytes -> bytes -> N -> bytes -> bytes) (dec : bytes -> bytes) (zf fuel : nat) 
+      (a : bytes) (KPath : Type) (fs_open_key : KPath -> Src3m.World -> res bytes) (parse_privkey : bytes -> res bytes)
+      (site : N -> N) (arg_keys : option (list KPath)) (privs : list bytes),
+    arg_keys <> Some [] ->
+    SrcTie3Cmds2Open.cli_keys KPath fs_open_key parse_privkey site arg_keys SrcTie3Cmds2Inst.world0 = Ok privs ->
+    SrcTie3Cmds2Tar.to_tar_domain CHUNK TAG BLOCK LIMIT FNMAX TS TC TA TE dh kdf wdec wtag ksf tagf dec zf fuel a privs =
+    true ->
+    SrcTie3Cmds2Inst.cres_of
+      (SrcTie3Cmds2Tar.to_tar_t CHUNK TAG BLOCK LIMIT FNMAX TS TC TA TE dh kdf wdec wtag ksf tagf dec zf fuel a KPath
+         fs_open_key parse_privkey site arg_keys SrcTie3Cmds2Inst.world0) =
+    cmd_to_tar CHUNK TAG BLOCK LIMIT FNMAX TS TC TA TE dh kdf wdec wtag ksf tagf dec zf fuel a privs.
+Proof. exact SrcTie3Cmds2Tar.to_tar_src. Qed.
+
+(* the loop of cat (names as given) from any reader state, any destination: = Cli.cat_loop, on EVERY exit (no premise) *)
+Theorem C17_tie_cat_loop_sim :
+  forall (FNMAX TS TC TA TE : N) (P : Type) (F : P -> Stream) (zf fuel : nat) (d : Src3m.OutputTypes)
+      (names : list bytes) (p : P) (r : rstate (F p)) (acc : bytes) (w : Src3m.World),
+    let g :=
+      Src3m.cat_for3 (SrcTie3Cmds2Inst.ARm P F) (SrcTie3Cmds2Inst.AFm P F)
+        (SrcTie3Cmds2Inst.get_file_m FNMAX TS TC TA TE P F) (SrcTie3Cmds2Inst.af_release_m P F)
+        (SrcTie3Cmds2Inst.io_copy_m FNMAX TS TC TA TE P F zf fuel) d (existT (fun p0 : P => rstate (F p0)) p r)
+        (Src3m.dest_write d acc w) names in
+    fst (fst g) = Src3m.dest_write d (fst (cat_loop FNMAX TS TC TA TE (F p) zf fuel r names acc)) w /\
+    is_ok (snd g) = snd (cat_loop FNMAX TS TC TA TE (F p) zf fuel r names acc).
+Proof. exact SrcTie3Cmds2Cat.cat_for3_sim. Qed.
+
+(* cat --glob: the two nested loops = the plain loop over the names the patterns select (cat_glob_names), pattern by pattern *)
+Theorem C17_tie_cat_glob_src :
+  forall (FNMAX TS TC TA TE : N) (P : Type) (F : P -> Stream) (zf fuel : nat) (Pat : Type)
+      (glob_new : bytes -> res Pat) (glob_matches : Pat -> bytes -> bool) (d : Src3m.OutputTypes)
+      (sorted pats : list bytes) (m : SrcTie3Cmds2Inst.ARm P F) (w : Src3m.World),
+    SrcTie3Cmds2Cat.glob_ok Pat glob_new pats ->
+    let g :=
+      Src3m.cat_for1 (SrcTie3Cmds2Inst.ARm P F) (SrcTie3Cmds2Inst.AFm P F) Pat
+        (SrcTie3Cmds2Inst.get_file_m FNMAX TS TC TA TE P F) (SrcTie3Cmds2Inst.af_release_m P F)
+        (SrcTie3Cmds2Inst.io_copy_m FNMAX TS TC TA TE P F zf fuel) glob_new glob_matches d m sorted w pats in
+    let g3 :=
+      Src3m.cat_for3 (SrcTie3Cmds2Inst.ARm P F) (SrcTie3Cmds2Inst.AFm P F)
+        (SrcTie3Cmds2Inst.get_file_m FNMAX TS TC TA TE P F) (SrcTie3Cmds2Inst.af_release_m P F)
+        (SrcTie3Cmds2Inst.io_copy_m FNMAX TS TC TA TE P F zf fuel) d m w
+        (SrcTie3Cmds2Cat.cat_glob_names Pat glob_new glob_matches sorted pats) in
+    fst (fst (fst g)) = fst (fst g3) /\ snd (fst (fst g)) = snd (fst g3) /\ snd g = snd g3.
+Proof. exact SrcTie3Cmds2Cat.cat_for1_src. Qed.
+
+(* the whole command: cat (translated) = Cli.cmd_cat; the destination is created BEFORE the archive is opened *)
+Theorem C17_tie_cat_src :
+  forall (CHUNK TAG BLOCK LIMIT FNMAX TS TC TA TE : N) (dh : bytes -> bytes -> bytes) (kdf : bytes -> bytes)
+      (wdec wtag : bytes -> bytes -> bytes) (ksf : bytes -> bytes -> N -> N -> N)
+      (tagf : bytes -> bytes -> N -> bytes -> bytes) (dec : bytes -> bytes) (zf fuel : nat) 
+      (a : bytes) (KPath : Type) (fs_open_key : KPath -> Src3m.World -> res bytes) (parse_privkey : bytes -> res bytes)
+      (site site_cat : N -> N) (arg_keys : option (list KPath)) (Pat : Type) (glob_new : bytes -> res Pat)
+      (glob_matches : Pat -> bytes -> bool) (to_file : bool) (names privs : list bytes),
+    arg_keys <> Some [] ->
+    SrcTie3Cmds2Open.cli_keys KPath fs_open_key parse_privkey site arg_keys
+      (fst (Src3m.destination_from_output_argument (negb to_file) Src3m.arg_output SrcTie3Cmds2Inst.world0)) = 
+    Ok privs ->
+    SrcTie3Cmds2Inst.cres_of
+      (SrcTie3Cmds2Cat.cat_t CHUNK TAG BLOCK LIMIT FNMAX TS TC TA TE dh kdf wdec wtag ksf tagf dec zf fuel a KPath
+         fs_open_key parse_privkey site site_cat arg_keys Pat glob_new glob_matches to_file false 
+         (Some names) SrcTie3Cmds2Inst.world0) =
+    cmd_cat CHUNK TAG BLOCK LIMIT FNMAX TS TC TA TE dh kdf wdec wtag ksf tagf dec to_file zf fuel a privs names.
+Proof. exact SrcTie3Cmds2Cat.cat_src. Qed.
+
+(* the whole command: list without -v (translated) = Cli.cmd_list_a *)
+Theorem C17_tie_list_src :
+  forall (CHUNK TAG BLOCK LIMIT FNMAX TS TC TA TE : N) (dh : bytes -> bytes -> bytes) (kdf : bytes -> bytes)
+      (wdec wtag : bytes -> bytes -> bytes) (ksf : bytes -> bytes -> N -> N -> N)
+      (tagf : bytes -> bytes -> N -> bytes -> bytes) (dec : bytes -> bytes) (a : bytes) (KPath : Type)
+      (fs_open_key : KPath -> Src3m.World -> res bytes) (parse_privkey : bytes -> res bytes) 
+      (site site_list : N -> N) (arg_keys : option (list KPath)) (fmt_size : N -> bytes) (privs : list bytes),
+    arg_keys <> Some [] ->
+    SrcTie3Cmds2Open.cli_keys KPath fs_open_key parse_privkey site arg_keys SrcTie3Cmds2Inst.world0 = Ok privs ->
+    SrcTie3Cmds2Inst.cres_of
+      (SrcTie3Cmds2Cat.list_t CHUNK TAG BLOCK LIMIT FNMAX TS TC TA TE dh kdf wdec wtag ksf tagf dec a KPath fs_open_key
+         parse_privkey site site_list arg_keys fmt_size 0 SrcTie3Cmds2Inst.world0) =
+    cmd_list_a CHUNK TAG BLOCK LIMIT dh kdf wdec wtag ksf tagf dec a privs.
+Proof. exact SrcTie3Cmds2Cat.list_src. Qed.
+
+(* list -vv (any count >= 2): the lines of exactly the rows of Cli.cmd_list_verbose_a, exit status 0 iff it says true *)
+Theorem C17_tie_list_vv_src :
+  forall (CHUNK TAG BLOCK LIMIT FNMAX TS TC TA TE : N) (dh : bytes -> bytes -> bytes) (kdf : bytes -> bytes)
+      (wdec wtag : bytes -> bytes -> bytes) (ksf : bytes -> bytes -> N -> N -> N)
+      (tagf : bytes -> bytes -> N -> bytes -> bytes) (dec : bytes -> bytes) (a : bytes) (KPath : Type)
+      (fs_open_key : KPath -> Src3m.World -> res bytes) (parse_privkey : bytes -> res bytes) 
+      (site site_list : N -> N) (arg_keys : option (list KPath)) (fmt_size : N -> bytes) (vc : N) 
+      (privs : list bytes),
+    2 <= vc ->
+    arg_keys <> Some [] ->
+    SrcTie3Cmds2Open.cli_keys KPath fs_open_key parse_privkey site arg_keys SrcTie3Cmds2Inst.world0 = Ok privs ->
+    SrcTie3Cmds2Inst.cres_of
+      (SrcTie3Cmds2Cat.list_t CHUNK TAG BLOCK LIMIT FNMAX TS TC TA TE dh kdf wdec wtag ksf tagf dec a KPath fs_open_key
+         parse_privkey site site_list arg_keys fmt_size vc SrcTie3Cmds2Inst.world0) =
+    (let m := cmd_list_verbose_a CHUNK TAG BLOCK LIMIT FNMAX TS TC TA TE dh kdf wdec wtag ksf tagf dec a privs in
+     {| cr_ok := snd m; cr_out := OUntouched; cr_stdout := flat_map (SrcTie3Cmds2Cat.vv_line fmt_size) (fst m) |}).
+Proof. exact SrcTie3Cmds2Cat.list_vv_src. Qed.
+
+(* config_from_matches (translated) = config_spec: -l names (unknown: panic; default both layers), -p only under ENCRYPT, -q only under COMPRESS and <= 11 *)
+Theorem C17_tie_config_from_matches_src :
+  forall (KPath : Type) (fs_open_key : KPath -> Src3m.World -> res bytes) (parse_pubkey : bytes -> res bytes)
+      (site : N -> N) (arg_level : option N) (arg_pubs : option (list KPath)) (arg_layers : option (list bytes))
+      (w : Src3m.World),
+    Src3m.config_from_matches KPath arg_level arg_pubs arg_layers fs_open_key parse_pubkey site w =
+    (w, SrcTie3Cmds2Cfg.config_spec KPath fs_open_key parse_pubkey site arg_level arg_pubs arg_layers w).
+Proof. exact SrcTie3Cmds2Cfg.config_from_matches_src. Qed.
+
+(* writer_from_matches: the configuration, THEN File::create of the output, THEN ArchiveWriter::from_config *)
+Theorem C17_tie_writer_from_matches_src :
+  forall (KPath : Type) (fs_open_key : KPath -> Src3m.World -> res bytes) (parse_pubkey : bytes -> res bytes)
+      (site : N -> N) (arg_level : option N) (arg_pubs : option (list KPath)) (arg_layers : option (list bytes))
+      (AW : Type) (writer_from_config : Src3m.OutputTypes -> Src3m.WriterConfig -> Src3m.World -> Src3m.World * res AW)
+      (dash : bool) (w : Src3m.World),
+    Src3m.writer_from_matches KPath AW dash arg_level arg_pubs arg_layers fs_open_key parse_pubkey writer_from_config
+      site w =
+    match SrcTie3Cmds2Cfg.config_spec KPath fs_open_key parse_pubkey site arg_level arg_pubs arg_layers w with
+    | Ok c =>
+        if dash
+        then writer_from_config Src3m.Stdout c w
+        else writer_from_config (Src3m.OFile Src3m.PMain) c (Src3m.w_set Src3m.PMain (fun _ : outeff => OWritten []) w)
+    | Err e => (w, Err e)
+    | Crash x => (w, Crash x)
+    end.
+Proof. exact SrcTie3Cmds2Cfg.writer_from_matches_src. Qed.
+
+(* the loop of convert from any reader state: the add_file calls are exactly Cli.convert_ops's, on every exit *)
+Theorem C17_tie_convert_loop_sim :
+  forall (FNMAX TS TC TA TE : N) (P : Type) (F : P -> Stream) (zf fuel : nat) (dc : Src3m.OutputTypes * wconfig)
+      (names : list bytes) (p : P) (r : rstate (F p)) (acc : list wop) (w : Src3m.World),
+    let g :=
+      Src3m.convert_for1 (SrcTie3Cmds2Inst.ARm P F) (SrcTie3Cmds2Inst.AFm P F) SrcTie3Cmds2Conv.AWm
+        (SrcTie3Cmds2Inst.get_file_m FNMAX TS TC TA TE P F) (SrcTie3Cmds2Inst.af_filename_m P F)
+        (SrcTie3Cmds2Inst.af_size_m P F) (SrcTie3Cmds2Inst.af_release_m P F)
+        (SrcTie3Cmds2Conv.add_archive_file_m FNMAX TS TC TA TE P F zf fuel) (existT (fun p0 : P => rstate (F p0)) p r)
+        (dc, acc) w names in
+    fst (fst (fst g)) = w /\
+    match convert_ops FNMAX TS TC TA TE (F p) zf fuel r names acc with
+    | Ok ops => snd (fst g) = (dc, ops) /\ snd g = Ok tt
+    | Err e => snd g = Err e
+    | Crash c => snd g = Crash c
+    end.
+Proof. exact SrcTie3Cmds2Conv.convert_for1_sim. Qed.
+
+(* the whole command: convert (translated) over the model's two-phase writer = Cli.cmd_convert *)
+Theorem C17_tie_convert_src :
+  forall (CHUNK TAG CIPHERBUF BLOCK LIMIT FNMAX TS TC TA TE : N) (H : bytes -> bytes) (order : footer -> footer)
+      (pubk : bytes -> bytes) (dh : bytes -> bytes -> bytes) (kdf : bytes -> bytes)
+      (wenc wdec wtag : bytes -> bytes -> bytes) (ksf : bytes -> bytes -> N -> N -> N)
+      (tagf : bytes -> bytes -> N -> bytes -> bytes) (dec : bytes -> bytes) (zf fuel : nat) 
+      (a : bytes) (KPath : Type) (fs_open_key : KPath -> Src3m.World -> res bytes)
+      (parse_privkey parse_pubkey : bytes -> res bytes) (site_rc site_cfg site_convert : N -> N)
+      (arg_keys : option (list KPath)) (arg_level : option N) (arg_pubs : option (list KPath))
+      (arg_layers : option (list bytes)) (mk_cfg : Src3m.WriterConfig -> wconfig) (ct cm : list N) 
+      (privs : list bytes) (c : Src3m.WriterConfig),
+    arg_keys <> Some [] ->
+    SrcTie3Cmds2Open.cli_keys KPath fs_open_key parse_privkey site_rc arg_keys SrcTie3Cmds2Inst.world0 = Ok privs ->
+    SrcTie3Cmds2Cfg.config_spec KPath fs_open_key parse_pubkey site_cfg arg_level arg_pubs arg_layers
+      SrcTie3Cmds2Inst.world0 = Ok c ->
+    SrcTie3Cmds2Inst.cres_of
+      (SrcTie3Cmds2Conv.convert_t CHUNK TAG CIPHERBUF BLOCK LIMIT FNMAX TS TC TA TE H order pubk dh kdf wenc wdec wtag
+         ksf tagf dec zf fuel a KPath fs_open_key parse_privkey parse_pubkey site_rc site_cfg site_convert arg_keys
+         arg_level arg_pubs arg_layers mk_cfg ct cm SrcTie3Cmds2Inst.world0) =
+    cmd_convert CHUNK TAG CIPHERBUF BLOCK LIMIT FNMAX TS TC TA TE H order pubk dh kdf wenc wdec wtag ksf tagf dec zf
+      fuel a privs (mk_cfg c) ct cm.
+Proof. exact SrcTie3Cmds2Conv.convert_src. Qed.
+
+(* the whole command: repair (translated) = CliRepair.cmd_repair: key policy and from_config BEFORE the output is created *)
+Theorem C17_tie_repair_src :
+  forall (CHUNK TAG CIPHERBUF BLOCK LIMIT FNMAX CACHE FSBUF TS TC TA TE : N) (H pubk : bytes -> bytes)
+      (dh : bytes -> bytes -> bytes) (kdf : bytes -> bytes) (wenc wdec wtag : bytes -> bytes -> bytes)
+      (ksf : bytes -> bytes -> N -> N -> N) (tagf : bytes -> bytes -> N -> bytes -> bytes) (a : bytes) 
+      (KPath : Type) (fs_open_key : KPath -> Src3m.World -> res bytes) (parse_privkey parse_pubkey : bytes -> res bytes)
+      (site_rc site_cfg : N -> N) (arg_keys : option (list KPath)) (arg_level : option N)
+      (arg_pubs : option (list KPath)) (arg_layers : option (list bytes)) (mk_cfg : Src3m.WriterConfig -> wconfig)
+      (ct cm : list N) (dstate : Type) (dinit : dstate) (dstep : dstate -> bytes -> N -> dresult * N * bytes * dstate)
+      (pfuel rfuel : nat) (unauth : bool) (privs : list bytes) (c : Src3m.WriterConfig),
+    arg_keys <> Some [] ->
+    SrcTie3Cmds2Open.cli_keys KPath fs_open_key parse_privkey site_rc arg_keys SrcTie3Cmds2Inst.world0 = Ok privs ->
+    SrcTie3Cmds2Cfg.config_spec KPath fs_open_key parse_pubkey site_cfg arg_level arg_pubs arg_layers
+      SrcTie3Cmds2Inst.world0 = Ok c ->
+    SrcTie3Cmds2Inst.cres_of
+      (SrcTie3Cmds2Conv.repair_t CHUNK TAG CIPHERBUF BLOCK LIMIT FNMAX CACHE FSBUF TS TC TA TE H pubk dh kdf wenc wdec
+         wtag ksf tagf a KPath fs_open_key parse_privkey parse_pubkey site_rc site_cfg arg_keys arg_level arg_pubs
+         arg_layers mk_cfg ct cm dstate dinit dstep pfuel rfuel unauth SrcTie3Cmds2Inst.world0) =
+    fst
+      (cmd_repair CHUNK TAG CIPHERBUF BLOCK LIMIT FNMAX CACHE FSBUF TS TC TA TE H pubk dh kdf wenc wdec wtag ksf tagf
+         dstate dinit dstep pfuel unauth rfuel a privs (mk_cfg c) ct cm).
+Proof. exact SrcTie3Cmds2Conv.repair_src. Qed.
+
+(* add_file_or_dir / add_dir (translated, mutually recursive) = the depth-first walk in read_dir order *)
+Theorem C17_tie_add_file_or_dir_sim :
+  forall (CPath : Type) (fs_is_dir : CPath -> bool) (fs_open_file : CPath -> res bytes)
+      (fs_read_dir : CPath -> res (list (res CPath))) (cpath_name : CPath -> bytes) (dc : Src3m.OutputTypes * wconfig)
+      (fuel : nat) (p : CPath) (acc : list wop) (w : Src3m.World),
+    SrcTie3Cmds2Create.walked dc acc w
+      (Src3m.add_file_or_dir CPath bytes SrcTie3Cmds2Conv.AWm SrcTie3Cmds2Create.add_fs_file_m fs_is_dir fs_open_file
+         SrcTie3Cmds2Create.cfile_metadata_m fs_read_dir cpath_name fuel (dc, acc) p w)
+      (SrcTie3Cmds2Create.walk CPath fs_is_dir fs_open_file fs_read_dir cpath_name fuel p).
+Proof. exact SrcTie3Cmds2Create.add_file_or_dir_sim. Qed.
+
+(* the whole command: create (translated) = Cli.cmd_create of the walked files; a failing walk leaves the created output behind *)
+Theorem C17_tie_create_src :
+  forall (CHUNK CIPHERBUF BLOCK LIMIT FNMAX TS TC TA TE : N) (H : bytes -> bytes) (order : footer -> footer)
+      (pubk : bytes -> bytes) (dh : bytes -> bytes -> bytes) (kdf : bytes -> bytes)
+      (wenc wtag : bytes -> bytes -> bytes) (ksf : bytes -> bytes -> N -> N -> N)
+      (tagf : bytes -> bytes -> N -> bytes -> bytes) (KPath : Type) (fs_open_key : KPath -> Src3m.World -> res bytes)
+      (parse_pubkey : bytes -> res bytes) (site_cfg : N -> N) (arg_level : option N) (arg_pubs : option (list KPath))
+      (arg_layers : option (list bytes)) (mk_cfg : Src3m.WriterConfig -> wconfig) (ct cm : list N) 
+      (CPath : Type) (fs_is_dir : CPath -> bool) (fs_open_file : CPath -> res bytes)
+      (fs_read_dir : CPath -> res (list (res CPath))) (cpath_name : CPath -> bytes) (cpath_is_dash : CPath -> bool)
+      (stdin_lines : list (res CPath)) (fuel : nat) (paths : list CPath) (c : Src3m.WriterConfig),
+    SrcTie3Cmds2Cfg.config_spec KPath fs_open_key parse_pubkey site_cfg arg_level arg_pubs arg_layers
+      SrcTie3Cmds2Inst.world0 = Ok c ->
+    SrcTie3Cmds2Inst.cres_of
+      (SrcTie3Cmds2Create.create_t CHUNK CIPHERBUF BLOCK LIMIT FNMAX TS TC TA TE H order pubk dh kdf wenc wtag ksf tagf
+         KPath fs_open_key parse_pubkey site_cfg arg_level arg_pubs arg_layers mk_cfg ct cm CPath fs_is_dir fs_open_file
+         fs_read_dir cpath_name cpath_is_dash stdin_lines fuel (Some paths) SrcTie3Cmds2Inst.world0) =
+    match
+      SrcTie3Cmds2Create.walk_args CPath fs_is_dir fs_open_file fs_read_dir cpath_name cpath_is_dash stdin_lines fuel
+        paths
+    with
+    | Ok files =>
+        cmd_create CHUNK CIPHERBUF BLOCK LIMIT FNMAX TS TC TA TE H order pubk dh kdf wenc wtag ksf tagf 
+          (mk_cfg c) ct cm files
+    | _ => {| cr_ok := false; cr_out := OWritten []; cr_stdout := [] |}
+    end.
+Proof. exact SrcTie3Cmds2Create.create_src. Qed.
+
+(* C17_to_tar_is_tar_of carried to the translated to_tar, on every archive made by create *)
+Theorem C17_to_tar_is_tar_of_src :
+  forall (CHUNK TAG CIPHERBUF BLOCK LIMIT FNMAX TS TC TA TE : N) (H : bytes -> bytes) (order : footer -> footer)
+      (pubk : bytes -> bytes) (dh : bytes -> bytes -> bytes) (kdf : bytes -> bytes)
+      (wenc wdec wtag : bytes -> bytes -> bytes) (ksf : bytes -> bytes -> N -> N -> N)
+      (tagf : bytes -> bytes -> N -> bytes -> bytes) (dec : bytes -> bytes),
+    0 < CHUNK ->
+    0 < TAG ->
+    0 < CIPHERBUF ->
+    0 < BLOCK ->
+    BLOCK < 2 ^ 32 ->
+    tags_distinct TS TC TA TE ->
+    (forall x : bytes, len (H x) = 32) ->
+    (forall f : footer, Permutation (order f) f) ->
+    (forall (k : bytes) (m : list N), len m = 32 -> wdec k (wenc k m) = m) ->
+    (forall e : bytes, len (pubk e) = 32) ->
+    (forall (k : bytes) (m : list N), len m = 32 -> len (wenc k m) = 32) ->
+    (forall k c : bytes, len (wtag k c) = 16) ->
+    forall (KPath : Type) (fs_open_key : KPath -> Src3m.World -> res bytes) (parse_privkey : bytes -> res bytes)
+      (site : N -> N) (arg_keys : option (list KPath)),
+    arg_keys <> Some [] ->
+    forall (cfg : wconfig) (ct cm : list N) (files : list (bytes * bytes)) (sf : wstate) (rs : list (res N))
+      (privs : list bytes) (s : bytes),
+    made_by_create CHUNK TAG BLOCK LIMIT FNMAX TS TC TA TE H order pubk dh kdf wenc wtag ksf tagf dec cfg files sf rs
+      privs s ->
+    forall zf fuel : nat,
+    (forall n d : bytes, In (n, d) files -> (length d < fuel)%nat) ->
+    SrcTie3Cmds2Open.cli_keys KPath fs_open_key parse_privkey site arg_keys SrcTie3Cmds2Inst.world0 = Ok privs ->
+    exists a : bytes,
+      cmd_create CHUNK CIPHERBUF BLOCK LIMIT FNMAX TS TC TA TE H order pubk dh kdf wenc wtag ksf tagf cfg ct cm files =
+      {| cr_ok := true; cr_out := OWritten a; cr_stdout := [] |} /\
+      (TagCollision pubk dh kdf wenc wtag (wc_eph cfg) (wc_key cfg) (wc_recipients cfg) privs \/
+       SrcTie3Cmds2Inst.cres_of
+         (SrcTie3Cmds2Tar.to_tar_t CHUNK TAG BLOCK LIMIT FNMAX TS TC TA TE dh kdf wdec wtag ksf tagf dec zf fuel a KPath
+            fs_open_key parse_privkey site arg_keys SrcTie3Cmds2Inst.world0) =
+       {| cr_ok := true; cr_out := OWritten (tar_of (sorted_files files)); cr_stdout := [] |}).
+Proof. exact SrcTie3Cmds2Made.C17_to_tar_is_tar_of_src. Qed.
+
+(* C17_cat_returns_bytes carried to the translated cat *)
+Theorem C17_cat_returns_bytes_src :
+  forall (CHUNK TAG CIPHERBUF BLOCK LIMIT FNMAX TS TC TA TE : N) (H : bytes -> bytes) (order : footer -> footer)
+      (pubk : bytes -> bytes) (dh : bytes -> bytes -> bytes) (kdf : bytes -> bytes)
+      (wenc wdec wtag : bytes -> bytes -> bytes) (ksf : bytes -> bytes -> N -> N -> N)
+      (tagf : bytes -> bytes -> N -> bytes -> bytes) (dec : bytes -> bytes),
+    0 < CHUNK ->
+    0 < TAG ->
+    0 < CIPHERBUF ->
+    0 < BLOCK ->
+    BLOCK < 2 ^ 32 ->
+    tags_distinct TS TC TA TE ->
+    (forall x : bytes, len (H x) = 32) ->
+    (forall f : footer, Permutation (order f) f) ->
+    (forall (k : bytes) (m : list N), len m = 32 -> wdec k (wenc k m) = m) ->
+    (forall e : bytes, len (pubk e) = 32) ->
+    (forall (k : bytes) (m : list N), len m = 32 -> len (wenc k m) = 32) ->
+    (forall k c : bytes, len (wtag k c) = 16) ->
+    forall (KPath : Type) (fs_open_key : KPath -> Src3m.World -> res bytes) (parse_privkey : bytes -> res bytes)
+      (site : N -> N) (arg_keys : option (list KPath)),
+    arg_keys <> Some [] ->
+    forall (cfg : wconfig) (ct cm : list N) (files : list (bytes * bytes)) (sf : wstate) (rs : list (res N))
+      (privs : list bytes) (s : bytes),
+    made_by_create CHUNK TAG BLOCK LIMIT FNMAX TS TC TA TE H order pubk dh kdf wenc wtag ksf tagf dec cfg files sf rs
+      privs s ->
+    forall zf fuel : nat,
+    (forall n d : bytes, In (n, d) files -> (length d < fuel)%nat) ->
+    forall (Pat : Type) (glob_new : bytes -> res Pat) (glob_matches : Pat -> bytes -> bool) (site_cat : N -> N),
+    (forall to_file : bool,
+     SrcTie3Cmds2Open.cli_keys KPath fs_open_key parse_privkey site arg_keys
+       (fst (Src3m.destination_from_output_argument (negb to_file) Src3m.arg_output SrcTie3Cmds2Inst.world0)) = 
+     Ok privs) ->
+    exists a : bytes,
+      cmd_create CHUNK CIPHERBUF BLOCK LIMIT FNMAX TS TC TA TE H order pubk dh kdf wenc wtag ksf tagf cfg ct cm files =
+      {| cr_ok := true; cr_out := OWritten a; cr_stdout := [] |} /\
+      (TagCollision pubk dh kdf wenc wtag (wc_eph cfg) (wc_key cfg) (wc_recipients cfg) privs \/
+       (forall (to_file : bool) (names : list bytes),
+        SrcTie3Cmds2Inst.cres_of
+          (SrcTie3Cmds2Cat.cat_t CHUNK TAG BLOCK LIMIT FNMAX TS TC TA TE dh kdf wdec wtag ksf tagf dec zf fuel a KPath
+             fs_open_key parse_privkey site site_cat arg_keys Pat glob_new glob_matches to_file false 
+             (Some names) SrcTie3Cmds2Inst.world0) =
+        (let d := concat (map (lookup_file files) names) in
+         if to_file
+         then {| cr_ok := true; cr_out := OWritten d; cr_stdout := [] |}
+         else {| cr_ok := true; cr_out := OUntouched; cr_stdout := d |}))).
+Proof. exact SrcTie3Cmds2Made.C17_cat_returns_bytes_src. Qed.
+
+(* C17_create_lists_given_paths carried to the translated list *)
+Theorem C17_create_lists_given_paths_src :
+  forall (CHUNK TAG CIPHERBUF BLOCK LIMIT FNMAX TS TC TA TE : N) (H : bytes -> bytes) (order : footer -> footer)
+      (pubk : bytes -> bytes) (dh : bytes -> bytes -> bytes) (kdf : bytes -> bytes)
+      (wenc wdec wtag : bytes -> bytes -> bytes) (ksf : bytes -> bytes -> N -> N -> N)
+      (tagf : bytes -> bytes -> N -> bytes -> bytes) (dec : bytes -> bytes),
+    0 < CHUNK ->
+    0 < TAG ->
+    0 < CIPHERBUF ->
+    0 < BLOCK ->
+    BLOCK < 2 ^ 32 ->
+    (forall x : bytes, len (H x) = 32) ->
+    (forall f : footer, Permutation (order f) f) ->
+    (forall (k : bytes) (m : list N), len m = 32 -> wdec k (wenc k m) = m) ->
+    (forall e : bytes, len (pubk e) = 32) ->
+    (forall (k : bytes) (m : list N), len m = 32 -> len (wenc k m) = 32) ->
+    (forall k c : bytes, len (wtag k c) = 16) ->
+    forall (KPath : Type) (fs_open_key : KPath -> Src3m.World -> res bytes) (parse_privkey : bytes -> res bytes)
+      (site : N -> N) (arg_keys : option (list KPath)),
+    arg_keys <> Some [] ->
+    forall (cfg : wconfig) (ct cm : list N) (files : list (bytes * bytes)) (sf : wstate) (rs : list (res N))
+      (privs : list bytes) (s : bytes),
+    made_by_create CHUNK TAG BLOCK LIMIT FNMAX TS TC TA TE H order pubk dh kdf wenc wtag ksf tagf dec cfg files sf rs
+      privs s ->
+    forall (fmt_size : N -> bytes) (site_list : N -> N),
+    SrcTie3Cmds2Open.cli_keys KPath fs_open_key parse_privkey site arg_keys SrcTie3Cmds2Inst.world0 = Ok privs ->
+    exists a : bytes,
+      cmd_create CHUNK CIPHERBUF BLOCK LIMIT FNMAX TS TC TA TE H order pubk dh kdf wenc wtag ksf tagf cfg ct cm files =
+      {| cr_ok := true; cr_out := OWritten a; cr_stdout := [] |} /\
+      (TagCollision pubk dh kdf wenc wtag (wc_eph cfg) (wc_key cfg) (wc_recipients cfg) privs \/
+       SrcTie3Cmds2Inst.cres_of
+         (SrcTie3Cmds2Cat.list_t CHUNK TAG BLOCK LIMIT FNMAX TS TC TA TE dh kdf wdec wtag ksf tagf dec a KPath
+            fs_open_key parse_privkey site site_list arg_keys fmt_size 0 SrcTie3Cmds2Inst.world0) =
+       {|
+         cr_ok := true;
+         cr_out := OUntouched;
+         cr_stdout := flat_map (fun n : list N => n ++ [Cli.NL]) (sort_names (map fst files))
+       |}).
+Proof. exact SrcTie3Cmds2Made.C17_create_lists_given_paths_src. Qed.
+
+(* C17_list_verbose_true_size_and_hash carried to the translated list -vv: each line shows the true size and H of the bytes *)
+Theorem C17_list_verbose_true_size_and_hash_src :
+  forall (CHUNK TAG CIPHERBUF BLOCK LIMIT FNMAX TS TC TA TE : N) (H : bytes -> bytes) (order : footer -> footer)
+      (pubk : bytes -> bytes) (dh : bytes -> bytes -> bytes) (kdf : bytes -> bytes)
+      (wenc wdec wtag : bytes -> bytes -> bytes) (ksf : bytes -> bytes -> N -> N -> N)
+      (tagf : bytes -> bytes -> N -> bytes -> bytes) (dec : bytes -> bytes),
+    0 < CHUNK ->
+    0 < TAG ->
+    0 < CIPHERBUF ->
+    0 < BLOCK ->
+    BLOCK < 2 ^ 32 ->
+    tags_distinct TS TC TA TE ->
+    (forall x : bytes, len (H x) = 32) ->
+    (forall f : footer, Permutation (order f) f) ->
+    (forall (k : bytes) (m : list N), len m = 32 -> wdec k (wenc k m) = m) ->
+    (forall e : bytes, len (pubk e) = 32) ->
+    (forall (k : bytes) (m : list N), len m = 32 -> len (wenc k m) = 32) ->
+    (forall k c : bytes, len (wtag k c) = 16) ->
+    forall (KPath : Type) (fs_open_key : KPath -> Src3m.World -> res bytes) (parse_privkey : bytes -> res bytes)
+      (site : N -> N) (arg_keys : option (list KPath)),
+    arg_keys <> Some [] ->
+    forall (cfg : wconfig) (ct cm : list N) (files : list (bytes * bytes)) (sf : wstate) (rs : list (res N))
+      (privs : list bytes) (s : bytes),
+    made_by_create CHUNK TAG BLOCK LIMIT FNMAX TS TC TA TE H order pubk dh kdf wenc wtag ksf tagf dec cfg files sf rs
+      privs s ->
+    forall (fmt_size : N -> bytes) (site_list : N -> N) (vc : N),
+    2 <= vc ->
+    SrcTie3Cmds2Open.cli_keys KPath fs_open_key parse_privkey site arg_keys SrcTie3Cmds2Inst.world0 = Ok privs ->
+    exists a : bytes,
+      cmd_create CHUNK CIPHERBUF BLOCK LIMIT FNMAX TS TC TA TE H order pubk dh kdf wenc wtag ksf tagf cfg ct cm files =
+      {| cr_ok := true; cr_out := OWritten a; cr_stdout := [] |} /\
+      (TagCollision pubk dh kdf wenc wtag (wc_eph cfg) (wc_key cfg) (wc_recipients cfg) privs \/
+       SrcTie3Cmds2Inst.cres_of
+         (SrcTie3Cmds2Cat.list_t CHUNK TAG BLOCK LIMIT FNMAX TS TC TA TE dh kdf wdec wtag ksf tagf dec a KPath
+            fs_open_key parse_privkey site site_list arg_keys fmt_size vc SrcTie3Cmds2Inst.world0) =
+       {|
+         cr_ok := true;
+         cr_out := OUntouched;
+         cr_stdout :=
+           flat_map (fun f : bytes * list N => SrcTie3Cmds2Cat.vv_line fmt_size (fst f, len (snd f), H (snd f)))
+             (sorted_files files)
+       |}).
+Proof. exact SrcTie3Cmds2Made.C17_list_verbose_true_size_and_hash_src. Qed.
+
+(* C17_convert_is_create carried to the translated convert *)
+Theorem C17_convert_is_create_src :
+  forall (CHUNK TAG CIPHERBUF BLOCK LIMIT FNMAX TS TC TA TE : N) (H : bytes -> bytes) (order : footer -> footer)
+      (pubk : bytes -> bytes) (dh : bytes -> bytes -> bytes) (kdf : bytes -> bytes)
+      (wenc wdec wtag : bytes -> bytes -> bytes) (ksf : bytes -> bytes -> N -> N -> N)
+      (tagf : bytes -> bytes -> N -> bytes -> bytes) (dec : bytes -> bytes),
+    0 < CHUNK ->
+    0 < TAG ->
+    0 < CIPHERBUF ->
+    0 < BLOCK ->
+    BLOCK < 2 ^ 32 ->
+    tags_distinct TS TC TA TE ->
+    (forall x : bytes, len (H x) = 32) ->
+    (forall f : footer, Permutation (order f) f) ->
+    (forall (k : bytes) (m : list N), len m = 32 -> wdec k (wenc k m) = m) ->
+    (forall e : bytes, len (pubk e) = 32) ->
+    (forall (k : bytes) (m : list N), len m = 32 -> len (wenc k m) = 32) ->
+    (forall k c : bytes, len (wtag k c) = 16) ->
+    forall (KPath : Type) (fs_open_key : KPath -> Src3m.World -> res bytes) (parse_privkey : bytes -> res bytes)
+      (site : N -> N) (arg_keys : option (list KPath)),
+    arg_keys <> Some [] ->
+    forall (cfg : wconfig) (ct cm : list N) (files : list (bytes * bytes)) (sf : wstate) (rs : list (res N))
+      (privs : list bytes) (s : bytes),
+    made_by_create CHUNK TAG BLOCK LIMIT FNMAX TS TC TA TE H order pubk dh kdf wenc wtag ksf tagf dec cfg files sf rs
+      privs s ->
+    forall zf fuel : nat,
+    (forall n d : bytes, In (n, d) files -> (length d < fuel)%nat) ->
+    forall (parse_pubkey : bytes -> res bytes) (site_cfg site_convert : N -> N) (arg_level : option N)
+      (arg_pubs : option (list KPath)) (arg_layers : option (list bytes)) (mk_cfg : Src3m.WriterConfig -> wconfig)
+      (ct' cm' : list N) (c : Src3m.WriterConfig),
+    SrcTie3Cmds2Open.cli_keys KPath fs_open_key parse_privkey site arg_keys SrcTie3Cmds2Inst.world0 = Ok privs ->
+    SrcTie3Cmds2Cfg.config_spec KPath fs_open_key parse_pubkey site_cfg arg_level arg_pubs arg_layers
+      SrcTie3Cmds2Inst.world0 = Ok c ->
+    exists a : bytes,
+      cmd_create CHUNK CIPHERBUF BLOCK LIMIT FNMAX TS TC TA TE H order pubk dh kdf wenc wtag ksf tagf cfg ct cm files =
+      {| cr_ok := true; cr_out := OWritten a; cr_stdout := [] |} /\
+      (TagCollision pubk dh kdf wenc wtag (wc_eph cfg) (wc_key cfg) (wc_recipients cfg) privs \/
+       SrcTie3Cmds2Inst.cres_of
+         (SrcTie3Cmds2Conv.convert_t CHUNK TAG CIPHERBUF BLOCK LIMIT FNMAX TS TC TA TE H order pubk dh kdf wenc wdec
+            wtag ksf tagf dec zf fuel a KPath fs_open_key parse_privkey parse_pubkey site site_cfg site_convert arg_keys
+            arg_level arg_pubs arg_layers mk_cfg ct' cm' SrcTie3Cmds2Inst.world0) =
+       cmd_create CHUNK CIPHERBUF BLOCK LIMIT FNMAX TS TC TA TE H order pubk dh kdf wenc wtag ksf tagf 
+         (mk_cfg c) ct' cm' (sorted_files files)).
+Proof. exact SrcTie3Cmds2Made.C17_convert_is_create_src. Qed.
+
+Print Assumptions C17_tie_open_mla_file_src.
+Print Assumptions C17_failed_open_leaves_no_output_src.
+Print Assumptions C17_tie_add_file_to_tar_src.
+Print Assumptions C17_tie_to_tar_loop_sim.
+Print Assumptions C17_tie_to_tar_panic_stops.
+Print Assumptions C17_tie_to_tar_without_domain_refuted.
+Print Assumptions C17_tie_to_tar_src.
+Print Assumptions C17_tie_cat_loop_sim.
+Print Assumptions C17_tie_cat_glob_src.
+Print Assumptions C17_tie_cat_src.
+Print Assumptions C17_tie_list_src.
+Print Assumptions C17_tie_list_vv_src.
+Print Assumptions C17_tie_config_from_matches_src.
+Print Assumptions C17_tie_writer_from_matches_src.
+Print Assumptions C17_tie_convert_loop_sim.
+Print Assumptions C17_tie_convert_src.
+Print Assumptions C17_tie_repair_src.
+Print Assumptions C17_tie_add_file_or_dir_sim.
+Print Assumptions C17_tie_create_src.
+Print Assumptions C17_to_tar_is_tar_of_src.
+Print Assumptions C17_cat_returns_bytes_src.
+Print Assumptions C17_create_lists_given_paths_src.
+Print Assumptions C17_list_verbose_true_size_and_hash_src.
+Print Assumptions C17_convert_is_create_src.
+
+(* ---------- non-vacuity (cmdsT2): the translated commands RUN on the archive of the examples above (x17_a: four files, no layer), from the
+   empty world, with a -k file system that delivers the key [1] for every path; the premises of the ties are met and the results are
+   the model's ---------- *)
+Definition x17s_open_key (_ : unit) (_ : Src3m.World) : res bytes := Ok [1].
+Definition x17s_parse (b : bytes) : res bytes := Ok b.
+Definition x17s_site (k : N) : N := k.
+Definition x17s_to_tar (keys : option (list unit)) : cres :=
+  SrcTie3Cmds2Inst.cres_of (SrcTie3Cmds2Tar.to_tar_t 64 16 256 ex3_LIMIT 65536 T1 T2 T3 T4 x17_dh x17_id x17_k2 x17_tag x17_ksf x17_tagf x17_id 10 600
+    x17_a unit x17s_open_key x17s_parse x17s_site keys SrcTie3Cmds2Inst.world0).
+Definition x17s_cat (to_file : bool) (keys : option (list unit)) (names : list bytes) : cres :=
+  SrcTie3Cmds2Inst.cres_of (SrcTie3Cmds2Cat.cat_t 64 16 256 ex3_LIMIT 65536 T1 T2 T3 T4 x17_dh x17_id x17_k2 x17_tag x17_ksf x17_tagf x17_id 10 600
+    x17_a unit x17s_open_key x17s_parse x17s_site x17s_site keys unit (fun _ => Ok tt) (fun _ _ => true) to_file false (Some names) SrcTie3Cmds2Inst.world0).
+Definition x17s_list (vc : N) (keys : option (list unit)) : cres :=
+  SrcTie3Cmds2Inst.cres_of (SrcTie3Cmds2Cat.list_t 64 16 256 ex3_LIMIT 65536 T1 T2 T3 T4 x17_dh x17_id x17_k2 x17_tag x17_ksf x17_tagf x17_id
+    x17_a unit x17s_open_key x17s_parse x17s_site x17s_site keys (fun n => [48 + n mod 10]) vc SrcTie3Cmds2Inst.world0).
+Definition x17s_mk_cfg (_ : Src3m.WriterConfig) : wconfig := x17_plain.
+Definition x17s_convert (keys : option (list unit)) : cres :=
+  SrcTie3Cmds2Inst.cres_of (SrcTie3Cmds2Conv.convert_t 64 16 24 256 ex3_LIMIT 65536 T1 T2 T3 T4 Sha256.sha256 x17_order x17_pub x17_dh x17_id x17_k2 x17_k2
+    x17_tag x17_ksf x17_tagf x17_id 10 600 x17_a unit x17s_open_key x17s_parse x17s_parse x17s_site x17s_site x17s_site keys None None (Some [])
+    x17s_mk_cfg [] [] SrcTie3Cmds2Inst.world0).
+Definition x17s_repair (keys : option (list unit)) : cres :=
+  SrcTie3Cmds2Inst.cres_of (SrcTie3Cmds2Conv.repair_t 64 16 24 256 ex3_LIMIT 65536 512 32 T1 T2 T3 T4 Sha256.sha256 x17_pub x17_dh x17_id x17_k2 x17_k2
+    x17_tag x17_ksf x17_tagf x17_a unit x17s_open_key x17s_parse x17s_parse x17s_site x17s_site keys None None (Some [])
+    x17s_mk_cfg [] [] unit tt (fun _ _ _ => (DFailure, 0, [], tt)) 0%nat 2000%nat false SrcTie3Cmds2Inst.world0).
+(* create: the paths are (name, content) pairs, none a directory *)
+Definition x17s_create : cres :=
+  SrcTie3Cmds2Inst.cres_of (SrcTie3Cmds2Create.create_t 64 24 256 ex3_LIMIT 65536 T1 T2 T3 T4 Sha256.sha256 x17_order x17_pub x17_dh x17_id x17_k2 x17_tag
+    x17_ksf x17_tagf unit x17s_open_key x17s_parse x17s_site None None (Some []) x17s_mk_cfg [10; 0; 33] [] (bytes * bytes)%type
+    (fun _ => false) (fun p => Ok (snd p)) (fun _ => Err EIo) fst (fun _ => false) [] 1%nat (Some x17_files) SrcTie3Cmds2Inst.world0).
+
+Example C17_example_premises_src :
+  SrcTie3Cmds2Open.cli_keys unit x17s_open_key x17s_parse x17s_site None SrcTie3Cmds2Inst.world0 = Ok [] /\
+  SrcTie3Cmds2Open.cli_keys unit x17s_open_key x17s_parse x17s_site (Some [tt]) SrcTie3Cmds2Inst.world0 = Ok [[1]] /\
+  SrcTie3Cmds2Tar.to_tar_domain 64 16 256 ex3_LIMIT 65536 T1 T2 T3 T4 x17_dh x17_id x17_k2 x17_tag x17_ksf x17_tagf x17_id 10 600 x17_a [] = true /\
+  SrcTie3Cmds2Cfg.config_spec unit x17s_open_key x17s_parse x17s_site None None (Some []) SrcTie3Cmds2Inst.world0 = Ok (Src3m.mkWC [] [] None) /\
+  SrcTie3Cmds2Create.walk_args (bytes * bytes) (fun _ => false) (fun p => Ok (snd p)) (fun _ => Err EIo) fst (fun _ => false) [] 1 x17_files = Ok x17_files.
+Proof. repeat (match goal with |- _ /\ _ => split end); vm_compute; reflexivity. Qed.
+
+(* the translated commands, run: the same results as the model's commands of the examples above; with a key: refused, outputs untouched
+   (cat -o FILE: FILE created empty) *)
+Example C17_example_commands_src :
+  x17s_to_tar None = x17_to_tar x17_a [] /\ x17s_to_tar (Some [tt]) = mkCR false OUntouched [] /\
+  x17s_cat false None [[97; 47; 120]; [110; 111; 112; 101]; [98; 46; 116; 120; 116]] = mkCR true OUntouched [1; 2; 3] /\
+  x17s_cat true (Some [tt]) [[97; 47; 120]] = mkCR false (OWritten []) [] /\
+  x17s_list 0 None = x17_list x17_a [] /\ cr_ok (x17s_list 2 None) = true /\ x17s_list 0 (Some [tt]) = mkCR false OUntouched [] /\
+  x17s_convert None = x17_convert x17_a [] /\ x17s_convert (Some [tt]) = mkCR false OUntouched [] /\
+  x17s_repair None = x17_repair x17_a [] /\ x17s_repair (Some [tt]) = mkCR false OUntouched [] /\
+  x17s_create = x17_create.
+Proof. repeat (match goal with |- _ /\ _ => split end); vm_compute; reflexivity. Qed.
+Print Assumptions C17_example_premises_src.
+Print Assumptions C17_example_commands_src.
+
+(* cmdsT2, cat --glob *)
+From MLA Require SrcTie3Cmds2Glob.
+(* the whole command cat --glob (translated) = Cli.cmd_cat of the names the patterns select among the sorted names of the archive *)
+Theorem C17_tie_cat_glob_command_src :
+  forall (CHUNK TAG BLOCK LIMIT FNMAX TS TC TA TE : N) (dh : bytes -> bytes -> bytes) (kdf : bytes -> bytes)
+      (wdec wtag : bytes -> bytes -> bytes) (ksf : bytes -> bytes -> N -> N -> N)
+      (tagf : bytes -> bytes -> N -> bytes -> bytes) (dec : bytes -> bytes) (zf fuel : nat) 
+      (a : bytes) (KPath : Type) (fs_open_key : KPath -> Src3m.World -> res bytes) (parse_privkey : bytes -> res bytes)
+      (site site_cat : N -> N) (arg_keys : option (list KPath)) (Pat : Type) (glob_new : bytes -> res Pat)
+      (glob_matches : Pat -> bytes -> bool) (to_file : bool) (pats privs : list bytes),
+    arg_keys <> Some [] ->
+    SrcTie3Cmds2Open.cli_keys KPath fs_open_key parse_privkey site arg_keys
+      (fst (Src3m.destination_from_output_argument (negb to_file) Src3m.arg_output SrcTie3Cmds2Inst.world0)) = 
+    Ok privs ->
+    SrcTie3Cmds2Cat.glob_ok Pat glob_new pats ->
+    SrcTie3Cmds2Inst.cres_of
+      (SrcTie3Cmds2Cat.cat_t CHUNK TAG BLOCK LIMIT FNMAX TS TC TA TE dh kdf wdec wtag ksf tagf dec zf fuel a KPath
+         fs_open_key parse_privkey site site_cat arg_keys Pat glob_new glob_matches to_file true 
+         (Some pats) SrcTie3Cmds2Inst.world0) =
+    cmd_cat CHUNK TAG BLOCK LIMIT FNMAX TS TC TA TE dh kdf wdec wtag ksf tagf dec to_file zf fuel a privs
+      (SrcTie3Cmds2Glob.glob_selection CHUNK TAG BLOCK LIMIT dh kdf wdec wtag ksf tagf dec a Pat glob_new glob_matches
+         privs pats).
+Proof. exact SrcTie3Cmds2Glob.cat_glob_src. Qed.
+
+Print Assumptions C17_tie_cat_glob_command_src.
+
+(* cmdsT2, info (tools/src2v3_cmds.py extended: item `info`) *)
+From MLA Require SrcTie3Cmds2Info.
+(* the whole command: info (translated; translator extended for it) = CliInfo.cmd_info: exit status 0 / 1 / 101 and standard output, on every exit *)
+Theorem C17_tie_info_src :
+  forall (CHUNK TAG BLOCK LIMIT : N) (dh : bytes -> bytes -> bytes) (kdf : bytes -> bytes)
+      (wdec wtag : bytes -> bytes -> bytes) (ksf : bytes -> bytes -> N -> N -> N)
+      (tagf : bytes -> bytes -> N -> bytes -> bytes) (dec : bytes -> bytes) (ovf : bool) (a : bytes) 
+      (KPath : Type) (fs_open_key : KPath -> Src3m.World -> res bytes) (parse_privkey : bytes -> res bytes)
+      (site site_info : N -> N) (arg_keys : option (list KPath)) (verbose : bool) (privs : list bytes) 
+      (w : Src3m.World),
+    Src3m.w_stdout w = [] ->
+    SrcTie3Cmds2Open.cli_keys KPath fs_open_key parse_privkey site arg_keys w = Ok privs ->
+    SrcTie3Cmds2Info.ires_of
+      (SrcTie3Cmds2Info.info_t CHUNK TAG BLOCK LIMIT dh kdf wdec wtag ksf tagf dec ovf a KPath fs_open_key parse_privkey
+         site site_info arg_keys verbose w) =
+    cmd_info CHUNK TAG BLOCK LIMIT dh kdf wdec wtag ksf tagf dec ovf verbose a privs.
+Proof. exact SrcTie3Cmds2Info.info_src. Qed.
+
+(* without the COMPRESS bit the -k files are not opened at all: no premise on them, any candidate keys on the model side *)
+Theorem C17_tie_info_uncompressed_ignores_keys_src :
+  forall (CHUNK TAG BLOCK LIMIT : N) (dh : bytes -> bytes -> bytes) (kdf : bytes -> bytes)
+      (wdec wtag : bytes -> bytes -> bytes) (ksf : bytes -> bytes -> N -> N -> N)
+      (tagf : bytes -> bytes -> N -> bytes -> bytes) (dec : bytes -> bytes) (ovf : bool) (a : bytes) 
+      (KPath : Type) (fs_open_key : KPath -> Src3m.World -> res bytes) (parse_privkey : bytes -> res bytes)
+      (site site_info : N -> N) (arg_keys : option (list KPath)) (verbose : bool) (privs : list bytes) 
+      (w : Src3m.World) (h : Format.header) (rest : bytes),
+    Src3m.w_stdout w = [] ->
+    read_header LIMIT a = Ok (h, rest) ->
+    has_bit (h_layers h) L_COMPRESS = false ->
+    SrcTie3Cmds2Info.ires_of
+      (SrcTie3Cmds2Info.info_t CHUNK TAG BLOCK LIMIT dh kdf wdec wtag ksf tagf dec ovf a KPath fs_open_key parse_privkey
+         site site_info arg_keys verbose w) =
+    cmd_info CHUNK TAG BLOCK LIMIT dh kdf wdec wtag ksf tagf dec ovf verbose a privs.
+Proof. exact SrcTie3Cmds2Info.info_uncompressed_ignores_keys_src. Qed.
+
+Print Assumptions C17_tie_info_src.
+Print Assumptions C17_tie_info_uncompressed_ignores_keys_src.
+
+(* non-vacuity: the translated info RUNS on the archive of the examples (no layer): three lines, exit status 0 — also with a -k file *)
+Definition x17s_info (verbose : bool) (keys : option (list unit)) : ires :=
+  SrcTie3Cmds2Info.ires_of (SrcTie3Cmds2Info.info_t 64 16 256 ex3_LIMIT x17_dh x17_id x17_k2 x17_tag x17_ksf x17_tagf x17_id true x17_a unit
+    x17s_open_key x17s_parse x17s_site x17s_site keys verbose SrcTie3Cmds2Inst.world0).
+Example C17_example_info_src :
+  x17s_info true None = cmd_info 64 16 256 ex3_LIMIT x17_dh x17_id x17_k2 x17_tag x17_ksf x17_tagf x17_id true true x17_a [] /\
+  i_status (x17s_info true (Some [tt])) = 0 /\
+  i_stdout (x17s_info false None) = line_version ++ line_enc false ++ line_comp false.
+Proof. repeat (match goal with |- _ /\ _ => split end); vm_compute; reflexivity. Qed.
+Print Assumptions C17_example_info_src.
